@@ -1145,10 +1145,10 @@ func c18PluginNumbers(t *testing.T, r *vres.Report, dir string) {
 	magnitudes := []string{"1", "64", "1024", "65536", "999999", "1000000", "1048576", "10485760", "52428800", "2147483648",
 		"1.0", "1024.0", "999999.0", "1000000.0", "1048576.0", "2097152.0", "1e3", "1e6", "1.5e6", "1e+06", "1.048576e+06", "2.097152e+06", "1e7", "5.24288e+07", "1E6", "0x400", "0o2000", "1_000_000"}
 	opts := []opt{
-		{plugin: "gzip", key: "min_size", rest: "        level: 5\n        content_types: [\"text/\"]\n", valid: append([]string{"0", "0.0"}, magnitudes...), invalid: []string{"abc", "[1]", "true", "~"}},
-		{plugin: "gzip", key: "level", rest: "        min_size: 64\n        content_types: [\"text/\"]\n", valid: []string{"-1", "0", "1", "5", "9", "-1.0", "0.0", "5.0", "9.0", "9e0", "0x9"}, invalid: []string{"10", "-2", "10.0", "1e1", "100", "abc", "~"}},
-		{plugin: "size_limit", key: "max_request_body", rest: "", valid: magnitudes, invalid: []string{"0", "-1", "0.0", "-1024.0", "-1e6", "abc", "true"}},
-		{plugin: "size_limit", key: "max_response_body", rest: "", valid: magnitudes, invalid: []string{"0", "-1", "0.0", "-1024.0", "-1e6", "abc", "true"}},
+		{plugin: "gzip", key: "min_size", rest: "        level: 5\n        content_types: [\"text/\"]\n", valid: append([]string{"0", "0.0"}, magnitudes...), invalid: []string{"abc", "[1]", "true", "~", "1e19", "1e300", "9223372036854775808"}},
+		{plugin: "gzip", key: "level", rest: "        min_size: 64\n        content_types: [\"text/\"]\n", valid: []string{"-1", "0", "1", "5", "9", "-1.0", "0.0", "5.0", "9.0", "9e0", "0x9"}, invalid: []string{"10", "-2", "10.0", "1e1", "100", "abc", "~", "1e19", "-1e19"}},
+		{plugin: "size_limit", key: "max_request_body", rest: "", valid: magnitudes, invalid: []string{"0", "-1", "0.0", "-1024.0", "-1e6", "abc", "true", "1e19", "1e300"}},
+		{plugin: "size_limit", key: "max_response_body", rest: "", valid: magnitudes, invalid: []string{"0", "-1", "0.0", "-1024.0", "-1e6", "abc", "true", "1e19", "1e300"}},
 	}
 	for _, o := range opts {
 		rest := o.rest
@@ -1173,7 +1173,7 @@ func c18PluginNumbers(t *testing.T, r *vres.Report, dir string) {
 	}
 	r.AddScenario(vres.Scenario{Name: "plugin-number-spellings", Engine: "W", Evaluations: evals, Distinct: int64(outs.N()), Outcomes: outs.N(),
 		Rule:  "one evaluation = one configuration file loaded with the real LoadConfig and built like main() does; distinct = (option, presented as valid, accepted) classes",
-		Bound: "4 numeric plugin options x every listed spelling (integers up to 2^31, zero-fraction floats, exponent notation, hex / octal / underscore integers) + the values each option documents as invalid", Exhaustive: true,
+		Bound: "4 numeric plugin options x every listed spelling (integers up to 2^31, zero-fraction floats, exponent notation, hex / octal / underscore integers) + the values each option documents as invalid and numbers too large for the machine's integers (1e19, 1e300, 2^63), which would otherwise wrap around", Exhaustive: true,
 		Extra: map[string]interface{}{"wall_s": time.Since(start).Seconds()}})
 }
 
